@@ -117,6 +117,8 @@ struct Case {
     cap: usize,
     write: bool,
     qs: Vec<String>,
+    /// generator family (evidence only)
+    tag: &'static str,
 }
 
 struct Outcome {
@@ -236,6 +238,163 @@ fn variant(rng: &mut Rng, tpl: usize) -> String {
     format!("{}{}{}", lead, parts.concat(), trail)
 }
 
+
+// ---------------------------------------------------------------- scanner-state desynchronisation
+//
+// The cache key is built by a scanner that must agree with the grammar about where literals
+// and comments begin and end.  If it loses track once (an escape right before a closing
+// quote, a quote of the other kind, a comment opener inside a literal, a quote inside a
+// comment ...) everything after that point is seen inverted: the inside of a LATER literal is
+// taken for code and its whitespace runs are collapsed.  So: a fixed "head" that stresses the
+// scanner, followed by a "tail" whose only variation is whitespace inside a later
+// literal / comment.
+
+/// string-valued heads: the scanner must come out of each of them in the Code state
+const HEADS: &[&str] = &[
+    // ending in an escaped backslash (one, two, three of them)
+    r"'C:\\'", r"'\\'", r"'\\\\'", r"'a\\\\'", r"'\\\\\\'", r#""C:\\""#, r#""\\""#, r#""a\\\\""#,
+    // ending in an escaped quote; escaped backslash then escaped quote
+    r"'it\''", r"'\''", r"'\\\''", r"'a\'\''", r#""\"""#, r#""\\\"""#, r#""say \"hi\"""#,
+    // other escapes right before the closing quote
+    r"'a\n'", r"'a\t'", r"'\u0041'", r"'a\ '", r#""a\n""#,
+    // the other quote kind / backticks inside
+    r#"'say "hi'"#, r#"'"'"#, r#"'""'"#, r#""it's""#, r#""'""#, r#""''""#, "'`'", "'a`b'", "\"`\"", r#"'\"'"#, r#""\'""#,
+    // comment openers / closers inside a literal
+    "'/*'", "'*/'", "'//'", "'a /* b'", "'a // b'", "\"/*\"", "\"//\"", "'/*/'",
+    // empty and plain
+    "''", "\"\"", "'x'", "\"x\"",
+];
+
+/// comments placed before the tail: quotes, stars and slashes that are not what they seem
+const HEAD_COMMENTS: &[&str] = &[
+    "/* ' */", "/* \" */", "/* it's */", "/*/ ' */", "/*/ \" /*/", "/***/", "/* **/", "/* * / ' */", "/**/", "/* \\ */", "/* '\\' */",
+    "/* // ' */", "// '\n", "// it's\n", "// \"\n", "// /* '\n", "//\n", "// \\\n", "/* ` */", "// `\n",
+];
+
+/// numeric heads: a `/` that is an operator, not a comment
+const NUM_HEADS: &[&str] = &["6 / 2", "6/2", "6 /2", "6/ 2", "6 / 2 / 1", "6 * 2", "7 % 2", "6 /* ' */ / 2", "6 / /* \" */ 2"];
+
+/// tails: the same later literal with different whitespace inside, in both quote kinds;
+/// the last two differ in whether a line comment swallows the rest of the statement
+const TAILS: &[&str] = &["'p q'", "'p  q'", "'p\tq'", "'p \n q'", "\"p q\"", "\"p  q\"", "\"p\tq\""];
+/// tails for the MATCH template: names that exist in the store
+const NAME_TAILS: &[&str] = &["'a b'", "'a  b'", "'a\tb'", "\"a b\"", "\"a  b\"", "'a // b'", "'a //  b'"];
+
+const N_DESYNC_TPL: usize = 9;
+
+/// `sp` = separator between tokens (one space in the exhaustive families)
+fn desync(tpl: usize, h1: &str, h2: &str, c: &str, tail: usize, sp: &mut dyn FnMut() -> String) -> String {
+    let t = TAILS[tail % TAILS.len()];
+    let nt = NAME_TAILS[tail % NAME_TAILS.len()];
+    let mut parts: Vec<String> = vec![];
+    {
+        let mut tok = |x: &str| {
+            if !x.is_empty() {
+                if !parts.is_empty() {
+                    parts.push(sp());
+                }
+                parts.push(x.to_string());
+            }
+        };
+        match tpl {
+            0 => { tok("RETURN"); tok(h1); tok(c); tok("+"); tok(t); tok("AS"); tok("x"); }
+            1 => { tok("RETURN"); tok(&format!("[{},", h1)); tok(c); tok(&format!("{},", h2)); tok(&format!("{}]", t)); tok("AS"); tok("x"); }
+            2 => { tok("RETURN"); tok(h1); tok("AS"); tok("h,"); tok(c); tok(t); tok("AS"); tok("x"); }
+            3 => { tok("WITH"); tok(h1); tok("AS"); tok("h"); tok(c); tok("RETURN"); tok("h"); tok("+"); tok(t); tok("AS"); tok("x"); }
+            4 => { tok("UNWIND"); tok(&format!("[{},", h1)); tok(&format!("{}]", h2)); tok("AS"); tok("s"); tok(c); tok("RETURN"); tok("s"); tok("+"); tok(t); tok("AS"); tok("x"); }
+            5 => {
+                tok("MATCH"); tok("(n:P)"); tok("WHERE"); tok("n.name"); tok("<>"); tok(h1); tok(c); tok("AND"); tok("n.name"); tok("="); tok(nt);
+                tok("RETURN"); tok("n.k"); tok("AS"); tok("k");
+            }
+            6 => { tok("RETURN"); tok(h1); tok("+"); tok(h2); tok(c); tok("+"); tok(t); tok("+"); tok(h1); tok("AS"); tok("x"); }
+            7 => {
+                // a later COMMENT varies: with the newline the statement goes on, without it the rest is commented out
+                tok("RETURN"); tok(h1); tok("+"); tok("'p'"); tok(c);
+                tok(["// c\n", "// c", "//  c\n", "/* c */", "/*  c  */", "// c \n", "//c\n"][tail % 7]);
+                tok("+"); tok("'z'"); tok("AS"); tok("x");
+            }
+            _ => { tok("RETURN"); tok(h1); tok("AS"); tok("h,"); tok(c); tok(t); tok("AS"); tok("x"); } // h1 numeric
+        }
+    }
+    parts.concat()
+}
+
+fn gen_desync_case(rng: &mut Rng) -> Case {
+    let cap = *rng.pick(&[1usize, 1, 2, 2, 3, 1024]);
+    let tpl = rng.usize(N_DESYNC_TPL);
+    let pick_head = |rng: &mut Rng| if tpl == 8 { rng.pick(NUM_HEADS).to_string() } else { rng.pick(HEADS).to_string() };
+    let mut h1 = pick_head(rng);
+    let h2 = rng.pick(HEADS).to_string();
+    let c = if rng.chance(1, 2) { String::new() } else { rng.pick(HEAD_COMMENTS).to_string() };
+    let n = 2 + rng.usize(4);
+    let mut pool: Vec<String> = vec![];
+    let mut qs = vec![];
+    for _ in 0..n {
+        if !pool.is_empty() && rng.chance(1, 5) {
+            qs.push(rng.pick(&pool).clone());
+            continue;
+        }
+        if rng.chance(1, 8) {
+            h1 = pick_head(rng); // a sibling head now and then: more keys in the cache
+        }
+        let tail = rng.usize(7);
+        let wild = rng.chance(1, 4);
+        let q = {
+            let mut sp = || if wild && rng.chance(1, 3) { rng.pick(SEPS).to_string() } else { " ".to_string() };
+            desync(tpl, &h1, &h2, &c, tail, &mut sp)
+        };
+        pool.push(q.clone());
+        qs.push(q);
+    }
+    Case { cap, write: false, qs, tag: "desync" }
+}
+
+/// exhaustive: every head (and every head comment, every numeric head) x all ordered pairs of tails
+fn exhaustive_desync(out: &mut Vec<Case>, thorough: bool) {
+    let mut one = || " ".to_string();
+    let caps: &[usize] = if thorough { &[1, 2] } else { &[2] };
+    let mut family = |tpl: usize, h1: &str, h2: &str, c: &str, out: &mut Vec<Case>| {
+        let fam: Vec<String> = (0..7).map(|t| desync(tpl, h1, h2, c, t, &mut one)).collect();
+        for cap in caps {
+            for a in &fam {
+                for b in &fam {
+                    if a != b {
+                        out.push(Case { cap: *cap, write: false, qs: vec![a.clone(), b.clone()], tag: "desync" });
+                    }
+                }
+            }
+        }
+    };
+    for h in HEADS {
+        family(0, h, "'x'", "", out);
+        family(5, h, "'x'", "", out);
+        if thorough {
+            family(1, "'x'", h, "", out);
+            family(6, h, h, "", out);
+            family(7, h, "'x'", "", out);
+        }
+    }
+    for c in HEAD_COMMENTS {
+        family(0, "'x'", "'x'", c, out);
+        family(2, "'x'", "'x'", c, out);
+        if thorough {
+            family(5, "'x'", "'x'", c, out);
+            family(7, "'x'", "'x'", c, out);
+        }
+    }
+    for h in NUM_HEADS {
+        family(8, h, "'x'", "", out);
+    }
+    // two stressing heads in a row, one of each quote kind, then the tail
+    let mixed: &[(&str, &str)] = &[
+        (r"'C:\\'", r#""it's""#), (r#""C:\\""#, r"'it\''"), (r"'\\\''", r#""\\\"""#), ("'/*'", "\"*/\""), ("'//'", r"'\\'"), (r#"'"'"#, r#""'""#),
+    ];
+    for (a, b) in mixed {
+        family(6, a, b, "", out);
+        family(4, a, b, "/* ' */", out);
+    }
+}
+
 const N_READ_TPL: usize = 8;
 
 fn gen_case(rng: &mut Rng) -> Case {
@@ -256,7 +415,7 @@ fn gen_case(rng: &mut Rng) -> Case {
         pool.push(q.clone());
         qs.push(q);
     }
-    Case { cap, write, qs }
+    Case { cap, write, qs, tag: "" }
 }
 
 /// small exhaustive scope: all ordered pairs and triples over hand-picked families
@@ -287,10 +446,10 @@ fn exhaustive(out: &mut Vec<Case>, thorough: bool) {
         for cap in [1usize, 2] {
             for a in fam {
                 for b in fam {
-                    out.push(Case { cap, write: false, qs: vec![a.to_string(), b.to_string()] });
+                    out.push(Case { cap, write: false, qs: vec![a.to_string(), b.to_string()], tag: "" });
                     if thorough || fam.len() <= 8 {
                         for c in fam {
-                            out.push(Case { cap, write: false, qs: vec![a.to_string(), b.to_string(), c.to_string()] });
+                            out.push(Case { cap, write: false, qs: vec![a.to_string(), b.to_string(), c.to_string()], tag: "" });
                         }
                     }
                 }
@@ -307,7 +466,7 @@ fn parse_case(line: &str) -> Option<Case> {
     let rest = line.strip_prefix("seq ")?;
     let (cap, rest) = rest.split_once(' ')?;
     let (w, arr) = rest.split_once(' ')?;
-    Some(Case { cap: cap.parse().ok()?, write: w == "w", qs: serde_json::from_str(arr).ok()? })
+    Some(Case { cap: cap.parse().ok()?, write: w == "w", qs: serde_json::from_str(arr).ok()?, tag: "" })
 }
 
 fn main() {
@@ -316,7 +475,7 @@ fn main() {
     let mut rep = Report::new(
         "C03",
         "sequences of 2-8 near-duplicate query strings (whitespace in/out of literals, comments, quoting, keyword case, \
-         Unicode blanks, unterminated literals) through one QueryEngine at capacities 0/1/2/3/1024 vs fresh parse+execute; \
+         Unicode blanks, unterminated literals; scanner-stressing heads followed by a later literal/comment whose inner whitespace varies) through one QueryEngine at capacities 0/1/2/3/1024 vs fresh parse+execute; \
          non-trivial = the sequence holds two strings with equal legacy key and different token streams, or equal token \
          streams and different text; distinct = distinct rendered sequence",
         &args.replays,
@@ -345,12 +504,18 @@ fn main() {
     rep.count_n("corpus_sequences", n_corpus);
     if args.replay.is_none() {
         exhaustive(&mut cases, args.thorough());
+        let n0 = cases.len();
+        exhaustive_desync(&mut cases, args.thorough());
+        rep.count_n("exhaustive_desync_pairs", (cases.len() - n0) as u64);
         rep.exhaustive = true;
-        rep.exhaustive_note = "all ordered pairs (and triples) of five hand-picked families of near-duplicate statements at capacities 1 and 2; plus PRNG sequences (not exhaustive)".into();
+        rep.exhaustive_note = "all ordered pairs (and triples) of five hand-picked families of near-duplicate statements at capacities 1 and 2; for every scanner-stressing head (literals ending in escaped backslash / escaped quote, other-kind quotes, comment openers inside literals, comments holding quotes, `/` operators) all ordered pairs of 7 tails that differ only in whitespace inside a LATER literal or comment; plus PRNG sequences (not exhaustive)".into();
         let mut rng = Rng::new(args.seed.wrapping_mul(0xD1B5_4A32_D192_ED03));
-        let n = if args.thorough() { 300_000 } else { 30_000 };
+        let n = if args.thorough() { 200_000 } else { 20_000 };
         for _ in 0..n {
             cases.push(gen_case(&mut rng));
+        }
+        for _ in 0..n / 2 {
+            cases.push(gen_desync_case(&mut rng));
         }
     }
 
@@ -412,6 +577,12 @@ fn main() {
             rep.count(&format!("capacity:{}", c.cap));
             if c.write {
                 rep.count("write_sequences");
+            }
+            if c.tag == "desync" {
+                rep.count("desync_sequences");
+                for ok in &o.parse_ok {
+                    rep.count(if *ok { "desync_queries_parse_ok" } else { "desync_queries_parse_err" });
+                }
             }
             let mut body = format!("{}\n", rendered);
             for i in 0..c.qs.len() {
